@@ -392,6 +392,30 @@ CHECKS["C05"] = dict(
     assumptions=["the idle time-out (10 min) is larger than every generated gap: the idle cut-off itself is not exercised",
                  "abortive closes (RST with unread data) are not generated: TCP itself then drops data"],
     parts=[
-        dict(name="relay", test="TestRelay", kind="rapid", checks={"quick": 20, "thorough": 1200}, shards=16, timeout={"quick": 900, "thorough": 3400}, shrinktime="60s", gomaxprocs=4),
+        dict(name="relay", test="TestRelay", kind="rapid", checks={"quick": 12, "thorough": 1200}, shards=16, timeout={"quick": 900, "thorough": 3400}, shrinktime="60s", gomaxprocs=4),
+    ],
+)
+
+CHECKS["C06"] = dict(
+    pkg="c06", level="exploration",
+    engine="verif re-export of the balancers (policy level) + tcpsim: real TCP processor with the real TCP health checker and scripted backends",
+    rule=("part roundrobin: n in 1..16 hosts, k in 1..50, g in 1..16 goroutines performing n*k consecutive picks in total after 0..40 warm-up picks: "
+          "every host exactly k. part pick: random / least-connection with scripted randInt values (small and up to 2^62) over 0..8 hosts "
+          "with generated connection counts: the pick is a member (nil iff the list is empty), least-connection returns one of its two "
+          "samples and never the strictly busier one. part e2e: rapid-generated histories (2..14 steps) against a real TCP processor with "
+          "the real TCP health checker (interval 15 ms, fall/rise 1..3): add hosts (main/backup), remove hosts exactly as the controller "
+          "does (fresh host objects for the address), replace all, backend down/up (listener closed/reopened), open 1..6 connections "
+          "(sequentially or concurrently; round robin: n*k), close a connection. Oracle after the health state has had (threshold+3) "
+          "intervals + 60 ms to converge: every relayed connection reaches a backend that is a member, up, and in the preferred tier "
+          "(backup only when no main host is up); with no usable host the client connection is closed, with a usable host none is "
+          "refused; round robin over n unchanged hosts gives each exactly k of n*k; established connections to a removed host are closed "
+          "within 5 s. Non-trivial: >1 goroutine and >1 host (roundrobin); >= 2 hosts (pick); a removal or health flip while a connection "
+          "is established (e2e). Distinct by canonical JSON."),
+    assumptions=["the usable set is judged only after the health-check detection window has passed since the last flip",
+                 "hosts are never added twice for one address (the config store filters that)"],
+    parts=[
+        dict(name="roundrobin", test="TestRoundRobin", kind="rapid", checks={"quick": 3000, "thorough": 100000}, shards=4, timeout={"quick": 600, "thorough": 3000}),
+        dict(name="pick", test="TestPick", kind="rapid", checks={"quick": 20000, "thorough": 1000000}, shards=4, timeout={"quick": 600, "thorough": 3000}),
+        dict(name="e2e", test="TestE2E", kind="rapid", checks={"quick": 40, "thorough": 2000}, shards=16, timeout={"quick": 900, "thorough": 3400}, shrinktime="60s", gomaxprocs=4, crash_is_violation=True),
     ],
 )
